@@ -443,6 +443,319 @@ def rule_action_identity(chk, prog):
     (r.bad if bad else r.ok)("ActionInfo::operator==", fn.where(), bad or "%d pairs" % n)
 
 
+class _DeadFields(dict):
+    """Field store of an object whose destructor has already run: any read is a use after free."""
+    def _dead(self, *a):
+        from ..microai.interp import AssertFail
+        raise AssertFail("reads a member of an object that may already be destroyed")
+    __getitem__ = get = __contains__ = _dead
+
+
+def rule_dead_pin_actions(chk, prog):
+    """~ShapeConnectionPin queues a ConnectionPinChange action whose objPtr is the dying pin: that pointer is a name, not an object."""
+    from ..microai.interp import Interp, Obj, Oracle, AssertFail, Unsupported, Thrown, default_obj
+    r = chk.rule("DEAD-PIN-ACTIONS", "a ConnectionPinChange action may outlive its pin (ShapeConnectionPin::~ShapeConnectionPin queues one for the pin "
+                 "being destroyed, and the action list is sorted and searched at the next transaction): ActionInfo::operator< and operator== "
+                 "interpreted on two such actions whose pins are already destroyed -- they order / compare the ADDRESSES and never read the "
+                 "pins; and no function of libavoid casts ActionInfo::objPtr back to a ShapeConnectionPin (as obstacle() / conn() do for "
+                 "the other action kinds, whose objects are alive while queued)", floor=3)
+    pin_type = 7
+    en = [e for e in prog.enums.get("Avoid::ActionType", {}).get("items", [])] if hasattr(prog, "enums") else []
+    for e in en:
+        if e.get("name") == "ConnectionPinChange":
+            pin_type = int(e.get("value", pin_type))
+    for opname in ("operator<", "operator=="):
+        fn = prog.fn("Avoid::ActionInfo::" + opname)
+        dead = [Obj("Avoid::ShapeConnectionPin", _DeadFields()), Obj("Avoid::ShapeConnectionPin", _DeadFields())]
+        A = default_obj(prog, "Avoid::ActionInfo", {"type": pin_type, "objPtr": dead[0], "firstMove": False})
+        B = default_obj(prog, "Avoid::ActionInfo", {"type": pin_type, "objPtr": dead[1], "firstMove": False})
+        it = Interp(prog, Oracle([]))
+        r.count()
+        bad = None
+        try:
+            it.call(fn, A, None, None, arg_values=[B])
+        except AssertFail as e:
+            bad = "%s %s" % (opname, e)
+        except Unsupported as e:
+            if "relational comparison of pointers" not in str(e):
+                raise AnalysisBroken("ActionInfo::%s outside the interpreter subset: %s" % (opname, e))
+        (r.bad if bad else r.ok)("ActionInfo::%s on two actions of destroyed pins" % opname, fn.where(), bad or "addresses only")
+    casts, control = [], 0
+    for f in prog.all_functions():
+        if not f.body or "/libavoid/" not in f.file:
+            continue
+        for n in f.nodes():
+            if n.get("k") in ("CXXStaticCastExpr", "CStyleCastExpr", "CXXReinterpretCastExpr", "CXXDynamicCastExpr", "CXXFunctionalCastExpr") and any(
+                    x.get("k") == "MemberExpr" and x.get("ref") == "Avoid::ActionInfo::objPtr" for x in walk(n)):
+                if "ShapeConnectionPin" in str(n.get("t", "")):
+                    casts.append((f, n))
+                else:
+                    control += 1
+    if control < 2:
+        raise AnalysisBroken("the casts of ActionInfo::objPtr in obstacle() / conn() were not recognised (%d): matcher out of date" % control)
+    r.count()
+    (r.ok if not casts else r.bad)("objPtr is never turned back into a pin", casts[0][0].loc(casts[0][1]) if casts else prog.fn("Avoid::ActionInfo::operator<").where(),
+                                   "%d casts to the other object kinds (obstacle(), conn()) recognised" % control if not casts else
+                                   "%s casts the object of a queued action to ShapeConnectionPin*: for a ConnectionPinChange queued by "
+                                   "~ShapeConnectionPin that pin is already destroyed" % casts[0][0].q)
+
+
+def rule_set_keys_frozen(chk, prog):
+    """std::set<ShapeConnectionPin*, CmpConnPinPtr> is ordered by the pins' members: changing them in place corrupts the tree."""
+    r = chk.rule("SET-KEYS-FROZEN", "the members ShapeConnectionPin::operator< orders by (the key of every shape's / junction's ordered pin set) are "
+                 "stored to, or bound to a non-const reference, only in the pin's constructors -- or in a function that first empties "
+                 "m_connection_pins on every path and inserts the pins again afterwards (ShapeRef::transformConnectionPinPositions): a pin whose "
+                 "key changes while it is in the set can no longer be found by erase(), stays in the set after its destruction and is deleted "
+                 "again by ~Obstacle", floor=3)
+    lt = prog.fn("Avoid::ShapeConnectionPin::operator<")
+    keys = sorted({n["ref"] for n in lt.nodes() if n.get("k") == "MemberExpr" and n.get("rk") == "Field" and str(n.get("ref", "")).startswith("Avoid::ShapeConnectionPin::")}
+                  - {"Avoid::ShapeConnectionPin::m_router", "Avoid::ShapeConnectionPin::m_shape", "Avoid::ShapeConnectionPin::m_junction"})
+    if len(keys) < 4:
+        raise AnalysisBroken("ShapeConnectionPin::operator<: key members not recognised (%s)" % keys)
+    r.count()
+    r.ok("key members", lt.where(), ", ".join(k.split("::")[-1] for k in keys))
+    n_sites = 0
+    for fn in prog.all_functions():
+        if not fn.body or "/libavoid/" not in fn.file:
+            continue
+        sites = []
+        for lhs, node, op in writes(fn):
+            f = written_field(lhs)[0]
+            if f in keys:
+                sites.append((node, "stores to %s" % f.split("::")[-1]))
+        for n in fn.nodes():
+            if n.get("k") == "VarDecl" and "&" in str(n.get("t", "")) and not str(n.get("t", "")).startswith("const ") and n.get("init") is not None:
+                i_ = strip(n["init"])
+                if i_ is not None and i_.get("k") == "MemberExpr" and i_.get("ref") in keys:
+                    sites.append((n, "binds the reference `%s` to %s" % (n.get("name"), i_["ref"].split("::")[-1])))
+        if not sites:
+            continue
+        if fn.q == "Avoid::ShapeConnectionPin::ShapeConnectionPin":
+            continue
+        n_sites += len(sites)
+        g = CFG(fn)
+        clr = [c for c in calls(fn) if str(c.get("cname", "")).endswith("::clear") and call_object(c) is not None and "m_connection_pins" in norm(call_object(c))]
+        ins = [c for c in calls(fn) if re.search(r"::insert(<|$)", str(c.get("cname", ""))) and call_object(c) is not None and "m_connection_pins" in norm(call_object(c))]
+        for node, what in sites:
+            r.count()
+            inst = "%s: %s (line %s)" % (fn.q, what, node.get("l"))
+            target = node["id"] if node.get("id") in g.pos else None
+            if target is None:
+                anc = [a for a in fn.ancestors(node) if a.get("id") in g.pos]
+                target = anc[0]["id"] if anc else None
+            if not clr or not ins or target is None:
+                r.bad(inst, fn.loc(node), "the pin's set key is changed while the pin may be in its shape's ordered pin set (no m_connection_pins.clear() "
+                      "before / insert after in this function)")
+                continue
+            w = g.must_precede([c["id"] for c in clr], target)
+            w2 = g.must_follow(target, [c["id"] for c in ins]) if w is None else None
+            if w is not None:
+                r.bad(inst, fn.loc(node), "a path reaches this change of the key without emptying m_connection_pins first (%s)" % g.describe(w))
+            elif w2 is not None:
+                r.bad(inst, fn.loc(node), "after this change a path leaves the function without inserting the pins again (%s)" % g.describe(w2))
+            else:
+                r.ok(inst, fn.loc(node))
+    if n_sites < 2:
+        raise AnalysisBroken("no function outside the constructors changes a pin key any more: rule has no instance (was transformConnectionPinPositions)")
+
+
+def rule_stale_solver_pointer(chk, prog):
+    r = chk.rule("STALE-SOLVER-POINTER", "cola::SeparationConstraint::vpscConstraint points at a vpsc::Constraint that the projection which asked for it "
+                 "deletes: only generateSeparationConstraints (which creates it) may look through the pointer; every other function may only "
+                 "assign or compare it", floor=2)
+    fld = "cola::SeparationConstraint::vpscConstraint"
+    n = 0
+    for fn in prog.all_functions():
+        if not fn.body:
+            continue
+        for m in fn.nodes():
+            if m.get("k") == "MemberExpr" and m.get("rk") == "Field":
+                base = strip_casts(m.get("ch", [None])[0]) if m.get("ch") else None
+                if base is not None and base.get("k") == "MemberExpr" and base.get("ref") == fld:
+                    n += 1
+                    r.count()
+                    if fn.q == "cola::SeparationConstraint::generateSeparationConstraints":
+                        r.ok("%s->%s in %s" % ("vpscConstraint", m.get("ref", "?").split("::")[-1], fn.q), fn.loc(m))
+                    else:
+                        r.bad("vpscConstraint->%s in %s" % (m.get("ref", "?").split("::")[-1], fn.q), fn.loc(m),
+                              "reads or writes the vpsc::Constraint of an earlier projection, which that projection has freed")
+    gen = prog.fn("cola::SeparationConstraint::generateSeparationConstraints")
+    asg = [node for lhs, node, op in writes(gen) if written_field(lhs)[0] == fld]
+    r.count()
+    (r.ok if asg else r.bad)("generateSeparationConstraints stores a fresh constraint", gen.where(), "" if asg else "vpscConstraint is no longer assigned here")
+
+
+def rule_ctor_order(chk, prog, cg):
+    """A member that a constructor assigns in its body must be assigned before the constructor calls code that reads it."""
+    r = chk.rule("CTOR-USE-BEFORE-SET", "in every constructor of the five libraries: a scalar member that is first given a value by an assignment "
+                 "in the constructor BODY (not by the initialiser list) is assigned before the constructor calls any member function of the "
+                 "object under construction from which a member function of the same class that reads that member is reachable in the call graph "
+                 "(ConnRef(router, src, dst) called setEndpoints(), which routes at once when transactions are off, before it had "
+                 "registered m_reroute_flag_ptr)", floor=20)
+    by_key = {f.key: f for f in prog.all_functions()}
+    reads_cache = {}
+
+    def reads(f):
+        if f.key not in reads_cache:
+            out = set()
+            written_lhs = {id(strip(lhs)) for lhs, node, op in writes(f) if op == "="}
+            for n in f.nodes():
+                if n.get("k") == "MemberExpr" and n.get("rk") == "Field" and id(n) not in written_lhs:
+                    if member_of_this(n) is not None:
+                        out.add(n["ref"])
+            reads_cache[f.key] = out
+        return reads_cache[f.key]
+
+    trans_cache = {}
+
+    def trans_reads(k, cls):
+        if (k, cls) not in trans_cache:
+            seen, work, out = set(), [k], set()
+            while work:
+                x = work.pop()
+                if x in seen:
+                    continue
+                seen.add(x)
+                f = by_key.get(x)
+                if f is None or not f.body:
+                    continue
+                if f.cls == cls:
+                    out |= reads(f)
+                work.extend(cg.edges.get(x, ()))
+            trans_cache[(k, cls)] = out
+        return trans_cache[(k, cls)]
+    n_ctor = 0
+    for fn in prog.all_functions():
+        if fn.kind != "ctor" or not fn.body or not fn.cls:
+            continue
+        inited = {i.get("field") for i in fn.d.get("inits", []) if i.get("field")}
+        first = {}
+        for lhs, node, op in writes(fn):
+            f = member_of_this(lhs) if strip(lhs) is not None and strip(lhs).get("k") == "MemberExpr" else None
+            if f and op == "=" and f not in inited and f.rsplit("::", 1)[0] == fn.cls and f not in first:
+                first[f] = node
+        if not first:
+            continue
+        n_ctor += 1
+        g = CFG(fn)
+        for fld, node in first.items():
+            if node.get("id") not in g.pos:
+                continue
+            r.count()
+            bad = None
+            for c in calls(fn):
+                if c.get("k") != "CXXMemberCallExpr" or c.get("id") not in g.pos:
+                    continue
+                callee = by_key.get(c.get("callee"))
+                if callee is None or callee.cls != fn.cls or not callee.body:
+                    continue
+                obj = call_object(c)
+                if obj is not None and strip(obj) is not None and strip(obj).get("k") != "CXXThisExpr":
+                    continue
+                if fld in trans_reads(callee.key, fn.cls) and g.search([g.after(c["id"])], blocked=[], targets=[node["id"]]) is not None \
+                        and g.must_precede([node["id"]], c["id"]) is not None:
+                    bad = (c, callee)
+                    break
+            if bad:
+                r.bad("%s in %s" % (fld.split("::")[-1], fn.key), fn.loc(bad[0]), "%s() is called before `%s` is assigned at line %s, and reads it "
+                      "(directly or through other member functions of %s)" % (bad[1].name, fld.split("::")[-1], node.get("l"), fn.cls))
+            else:
+                r.ok("%s in %s" % (fld.split("::")[-1], fn.key), fn.loc(node))
+    chk.sample({"rule": "CTOR-USE-BEFORE-SET", "constructors_with_body_assigned_members": n_ctor})
+
+
+_CONNEND_DEREF_REVIEWED = {
+    ("Avoid::ConnRef::common_updateEndPoint", "m_src_connend"): "dereferenced right after `m_src_connend = new ConnEnd(connEnd)` in the same block",
+    ("Avoid::ConnRef::common_updateEndPoint", "m_dst_connend"): "dereferenced right after `m_dst_connend = new ConnEnd(connEnd)` in the same block",
+    ("Avoid::ConnRef::assignConnectionPinVisibility", "m_src_connend"): "under `dummySrc`, a single-assignment local defined as `m_src_connend && ...`",
+    ("Avoid::ConnRef::assignConnectionPinVisibility", "m_dst_connend"): "under `dummyDst`, a single-assignment local defined as `m_dst_connend && ...`",
+    ("Avoid::ConnRef::generatePath", "m_src_connend"): "under isDummyAtEnd.first, the value assignConnectionPinVisibility returned for `m_src_connend && isPinConnection()`",
+    ("Avoid::ConnRef::generatePath", "m_dst_connend"): "under isDummyAtEnd.second, likewise",
+    ("Avoid::HyperedgeTreeEdge::writeEdgesToConns", "m_dst_connend"): "a connector between two junctions: both ends were attached by addConns / "
+                                                                       "updateConnEnds (TREE-WRITEBACK of C12 decides that); asserted on the line before",
+}
+
+
+def rule_connend_deref(chk, prog):
+    from ..rules.guards import path_condition, atoms
+    r = chk.rule("NULLABLE-CONNEND", "ConnRef::m_src_connend / m_dst_connend are null for an end at a free point (most code tests them): every "
+                 "dereference in libavoid happens under a condition that names the pointer (it was tested on the path), or at one of the "
+                 "reviewed sites where another fact makes it non-null (listed with the reason)", floor=25)
+    flds = ("Avoid::ConnRef::m_src_connend", "Avoid::ConnRef::m_dst_connend")
+    used = set()
+    for fn in prog.all_functions():
+        if not fn.body or "/libavoid/" not in fn.file:
+            continue
+        for n in fn.nodes():
+            if n.get("k") != "MemberExpr" or n.get("ref") not in flds:
+                continue
+            anc = list(fn.ancestors(n))
+            p_ = anc[0] if anc else None
+            q_ = anc[1] if len(anc) > 1 else None
+            der = False
+            if p_ is not None and p_.get("k") == "ImplicitCastExpr" and q_ is not None:
+                if q_.get("k") in ("MemberExpr", "CXXMemberCallExpr") or (q_.get("k") == "UnaryOperator" and q_.get("op") == "*"):
+                    der = True
+                elif q_.get("k") == "ImplicitCastExpr" and len(anc) > 2 and anc[2].get("k") in ("MemberExpr", "CXXMemberCallExpr"):
+                    der = True
+            if not der:
+                continue
+            name = n["ref"].split("::")[-1]
+            r.count()
+            inst = "%s dereferenced in %s (line %s)" % (name, fn.q, n.get("l"))
+            pc = path_condition(fn, n, inline=False)
+            if any(name in a for a in atoms(pc)):
+                r.ok(inst, fn.loc(n), "tested on the path")
+            elif (fn.q, name) in _CONNEND_DEREF_REVIEWED:
+                used.add((fn.q, name))
+                r.ok(inst, fn.loc(n), "reviewed: " + _CONNEND_DEREF_REVIEWED[(fn.q, name)])
+            else:
+                r.bad(inst, fn.loc(n), "%s is dereferenced although nothing on the path says it is non-null: it is null when that end of the connector "
+                      "is a free point" % name)
+    stale = set(_CONNEND_DEREF_REVIEWED) - used
+    if stale:
+        raise AnalysisBroken("reviewed ConnEnd dereference sites no longer exist: %s" % sorted(stale))
+
+
+_VERTEX_NEVER_LISTED = {
+    "Avoid::delete_vertex::operator()": "the spanning-tree builder's extraVertices are created with `new VertInf` and never handed to VertInfList::addVertex",
+    "Avoid::Obstacle::~Obstacle": "asserts m_active == false: Obstacle::makeInactive has already taken the polygon's vertices off the router's list",
+}
+
+
+def rule_vertex_unlisted(chk, prog):
+    r = chk.rule("VERTEX-UNLISTED-BEFORE-DELETE", "every `delete` of an Avoid::VertInf is preceded, on every path, by VertInfList::removeVertex of the same "
+                 "vertex (the router's vertex list is an intrusive list threaded through the vertices: a freed vertex that is still linked is "
+                 "read by the next visibility-graph build and by ~Router), except the two reviewed sites whose vertices were never listed", floor=7)
+    seen = set()
+    for fn in prog.all_functions():
+        if not fn.body or "/libavoid/" not in fn.file:
+            continue
+        dels = [n for n in fn.nodes() if n.get("k") == "CXXDeleteExpr" and n.get("ch") and "VertInf" in str((strip(n["ch"][0]) or {}).get("t", ""))]
+        if not dels:
+            continue
+        g = CFG(fn)
+        rem = [c for c in calls(fn) if c.get("cname") == "Avoid::VertInfList::removeVertex"]
+        for d in dels:
+            r.count()
+            what = norm(d["ch"][0])
+            inst = "delete %s in %s" % (what, fn.q)
+            if fn.q in _VERTEX_NEVER_LISTED:
+                seen.add(fn.q)
+                r.ok(inst, fn.loc(d), "reviewed: " + _VERTEX_NEVER_LISTED[fn.q])
+                continue
+            same = [c for c in rem if norm(call_args(c)[0]) == what]
+            if not same:
+                r.bad(inst, fn.loc(d), "the vertex is freed without VertInfList::removeVertex(%s): it stays linked in the router's vertex list" % what)
+                continue
+            w = g.must_precede([c["id"] for c in same], d["id"])
+            (r.ok if w is None else r.bad)(inst, fn.loc(d), "" if w is None else
+                                           "a path reaches this delete without removeVertex(%s) (%s)" % (what, g.describe(w)))
+    for q in _VERTEX_NEVER_LISTED:
+        if q not in seen:
+            raise AnalysisBroken("reviewed site %s no longer deletes a VertInf: table out of date" % q)
+
+
 _NODE_BASED = re.compile(r"^(const )?std::(__cxx11::)?(list|map|set|multimap|multiset|forward_list)<")
 _ANY_CONT = re.compile(r"^(const )?std::(__cxx11::)?(list|vector|deque|map|set|multimap|multiset|unordered_map|unordered_set|forward_list)<")
 _SHRINK = ("erase", "clear", "pop_back", "pop_front", "remove", "remove_if", "resize", "assign", "swap", "unique", "splice", "merge", "shrink_to_fit")
@@ -665,3 +978,9 @@ def run(chk):
     chk.guard(rule_element_address, chk, prog)
     chk.guard(rule_split_halves, chk, prog)
     chk.guard(rule_of_three, chk, prog)
+    chk.guard(rule_dead_pin_actions, chk, prog)
+    chk.guard(rule_vertex_unlisted, chk, prog)
+    chk.guard(rule_ctor_order, chk, prog, cg)
+    chk.guard(rule_connend_deref, chk, prog)
+    chk.guard(rule_set_keys_frozen, chk, prog)
+    chk.guard(rule_stale_solver_pointer, chk, prog)
